@@ -71,10 +71,13 @@ Theorem C42_fuel_suffices fuel inp : length (in_bodies inp) + 2 <= fuel -> gener
 Proof. exact (fuel_suffices fuel inp). Qed.
 Print Assumptions C42_fuel_suffices.
 
-Theorem C42_must_be_base_refuted_loop_joint_only :
-  exists inp g, generate (defaultFuel inp) inp = Ok g /\ ~ base_honoured inp g.
-Proof. exact (@must_be_base_refuted_loop_joint_only). Qed.
-Print Assumptions C42_must_be_base_refuted_loop_joint_only.
+Theorem C42_massless_chain_extension_is_single_step B f J s added : chain B (S f) J s added = chain B 1 J s added.
+Proof. exact (massless_chain_extension_is_single_step B f J s added). Qed.
+Print Assumptions C42_massless_chain_extension_is_single_step.
+
+Theorem C42_two_massless_in_a_row_is_an_error : generate (defaultFuel two_massless) two_massless = Error (ETerminalMassless 1).
+Proof. exact (@two_massless_in_a_row_is_an_error). Qed.
+Print Assumptions C42_two_massless_in_a_row_is_an_error.
 
 Theorem C42_must_be_base_refuted_massless_chain :
   exists inp g, generate (defaultFuel inp) inp = Ok g /\ ~ base_honoured inp g.
@@ -82,14 +85,14 @@ Proof. exact (@must_be_base_refuted_massless_chain). Qed.
 Print Assumptions C42_must_be_base_refuted_massless_chain.
 
 Theorem C42_must_be_base_honoured fuel inp g b : generate fuel inp = Ok g -> 1 <= b < g_nb g ->
-  baseOf (allBodies inp) b = true -> base_joint_precondition inp b ->
+  baseOf (allBodies inp) b = true ->
   exists m, In m (g_mobs g) /\ moutb m = b /\ levelOf g b = Some (mlevel m) /\
     ((mlevel m = 1 /\ minb m = 0) \/ Z.gtb (massOf (allBodies inp) (minb m)) 0 = false).
 Proof. exact (must_be_base_honoured fuel inp g b). Qed.
 Print Assumptions C42_must_be_base_honoured.
 
 Theorem C42_must_be_base_honoured_level1 fuel inp g b : generate fuel inp = Ok g -> 1 <= b < g_nb g ->
-  baseOf (allBodies inp) b = true -> base_joint_precondition inp b -> no_massless_neighbour inp b ->
+  baseOf (allBodies inp) b = true -> no_massless_neighbour inp b ->
   levelOf g b = Some 1.
 Proof. exact (must_be_base_honoured_level1 fuel inp g b). Qed.
 Print Assumptions C42_must_be_base_honoured_level1.
@@ -110,7 +113,7 @@ Proof. exact (default_fuel_suffices inp). Qed.
 Print Assumptions C42_default_fuel_suffices.
 
 Theorem C42_base_ok_input_hyps : (exists g, generate (defaultFuel base_ok_input) base_ok_input = Ok g) /\
-  baseOf (allBodies base_ok_input) 2 = true /\ base_joint_precondition base_ok_input 2 /\ no_massless_neighbour base_ok_input 2.
+  baseOf (allBodies base_ok_input) 2 = true /\ no_massless_neighbour base_ok_input 2.
 Proof. exact (@base_ok_input_hyps). Qed.
 Print Assumptions C42_base_ok_input_hyps.
 
